@@ -363,6 +363,9 @@ PROPS["C16"]["race"] = True
 PROPS["C16"]["rule"] += (" extra (race-detector binary, beyond the property's quantifier which is over sequences): 12 rounds x 25 epochs of 6 goroutines doing Put/Remove/Get/Has/ClearCache on 4 keys of a "
                          "storage unit (LRU cache of 2-6 entries over a memorydb whose reads yield the processor); at every instant with nothing in flight the cache holds no value that differs from the "
                          "persister's and Get/Has answer like the persister.")
+for _p in ("C05", "C06", "C04"):
+    PROPS[_p]["rule"] += (" One history in sixteen puts one configuration field on either side of a boundary of config.verify(); the model's constructor "
+                          "(TxTypes.verify_config, proved to imply the configuration hypotheses of the C06 theorems: C06_accepted_configurations) must give NewTxCache's verdict.")
 PROPS["C16"]["coq_props"] = ["C16", "C16b"]
 PROPS["C16"]["assumptions"] = [a for a in PROPS["C16"]["assumptions"] if not a.startswith("LRU / SizeLRU / FIFOSharded satisfy cacher_laws")] + [
     "cacher_laws are PROVED for the models of the sized LRU, the plain LRU, the lruCache wrapper and the FIFO sharded cache (Props/C16b.v); those models are tied to the Go caches by the C15/C20 checks"]
